@@ -217,9 +217,13 @@ class Circuit:
         """Wait until a running circuit is fully initialized."""
         await self._check_started()
         assert self._simtask is not None
-        await asyncio.wait(
-            [asyncio.create_task(self._init_done.wait()), self._simtask],
-            return_when=asyncio.FIRST_COMPLETED)
+        init_waiter = asyncio.create_task(self._init_done.wait())
+        try:
+            await asyncio.wait(
+                [init_waiter, self._simtask], return_when=asyncio.FIRST_COMPLETED)
+        finally:
+            # do not leave the helper task pending if the initialization is never completed
+            init_waiter.cancel()
         if self._simtask.done():
             if self._simtask.cancelled():
                 msg = "The simulation task is finished"
